@@ -307,7 +307,7 @@ func randomPhase(c *Ctx, mode string) []wstep {
 			case "overflow":
 				steps = append(steps, wstep{Kind: 14, K: 220 + c.Rng.Intn(100)})
 			case "frames":
-				steps = append(steps, wstep{Kind: []int{4, 5, 9, 16, 17, 18}[c.Rng.Intn(6)]})
+				steps = append(steps, wstep{Kind: []int{4, 5, 9, 16, 17, 18, 19, 20, 21}[c.Rng.Intn(9)]})
 			case "closes", "mixed":
 				steps = append(steps, wstep{Kind: 2})
 			default:
@@ -319,6 +319,7 @@ func randomPhase(c *Ctx, mode string) []wstep {
 }
 
 func runC03(c *Ctx) {
+	sharedClient(c, "C03")
 	n := 6
 	if !c.Quick() {
 		n = 600
@@ -792,9 +793,12 @@ func runFail(c *Ctx, r *failRun, seed int64, level int) {
 				applyStep(srv, wstep{Kind: 4}, new(int))
 				applyStep(srv, wstep{Kind: 5}, new(int))
 				applyStep(srv, wstep{Kind: 9}, new(int))
-				applyStep(srv, wstep{Kind: 16}, new(int))
 				applyStep(srv, wstep{Kind: 17}, new(int))
 				applyStep(srv, wstep{Kind: 18}, new(int))
+				applyStep(srv, wstep{Kind: 20}, new(int))
+				// last, one of the frames that end the session (what follows it on
+				// the same stream is never read): a different one each round
+				applyStep(srv, wstep{Kind: []int{16, 19, 21}[i%3]}, new(int))
 			}
 			ct.pert.Barrier()
 		}
@@ -820,6 +824,7 @@ func runFail(c *Ctx, r *failRun, seed int64, level int) {
 }
 
 func runC14(c *Ctx) {
+	sharedClient(c, "C14")
 	kinds := []fakeapi.ListKind{fakeapi.ListErr, fakeapi.ListNonList, fakeapi.ListNoItems, fakeapi.ListNonObjects, fakeapi.ListErrCanceled, fakeapi.ListErrTooMany, fakeapi.ListErrSrvTimeout, fakeapi.ListErrTimeout, fakeapi.ListErrNotFound, fakeapi.ListErrForbidden, fakeapi.ListErrGone}
 	kindCode := map[fakeapi.ListKind]int{fakeapi.ListErr: 1, fakeapi.ListNonList: 2, fakeapi.ListNoItems: 3, fakeapi.ListNonObjects: 4, fakeapi.ListErrCanceled: 1, fakeapi.ListErrTooMany: 1, fakeapi.ListErrSrvTimeout: 1, fakeapi.ListErrTimeout: 1, fakeapi.ListErrNotFound: 1, fakeapi.ListErrForbidden: 1, fakeapi.ListErrGone: 1}
 	runs := 0
@@ -1041,4 +1046,119 @@ func containsInt(l []int, x int) bool {
 		}
 	}
 	return false
+}
+
+// sharedClient: two independent root controllers built on ONE client.Client
+// (what every typed NewController does with a clientset), their List calls
+// in flight at the same time (the server holds them), and one of the two
+// closed / cancelled meanwhile.  The other has nothing to do with it: it
+// becomes ready (keeps running), holds its server's content and goes on
+// relisting; the closed one is done with the error of a deliberate close.
+// Variants: the overlap is at the first list / at a relist; Close / cancel.
+func sharedClient(c *Ctx, pid string) {
+	for variant := 0; variant < 4; variant++ {
+		atRelist, byCancel := variant%2 == 1, variant/2 == 1
+		what := fmt.Sprintf("two controllers on one client.Client, both List calls in flight, one controller closed meanwhile (at a relist: %v, by context cancel: %v)", atRelist, byCancel)
+		c.Now(what)
+		var problems []string
+		dl := sched.Bubble(c.T, func() {
+			srv := fakeapi.New()
+			srv.Set(1, 1, labSets[1], 1)
+			srv.Set(1, 2, labSets[0], 1)
+			cl := client.NewClient(srv.List, srv.Watch)
+			pert := sched.NewPerturb(c.Seed+int64(variant), 0)
+			mk := func() (kcache.Controller, context.CancelFunc) {
+				ctx, cancel := context.WithCancel(context.Background())
+				b := kcache.NewBuilder().Context(ctx).Log(pert.Log()).Client(cl)
+				b.Lister().RefreshPeriod(3 * time.Second)
+				ct, err := b.Create()
+				if err != nil {
+					problems = append(problems, "Create failed: "+err.Error())
+					cancel()
+					return nil, nil
+				}
+				return ct, cancel
+			}
+			var release func()
+			if !atRelist {
+				release = srv.HoldLists()
+			}
+			a, cancelA := mk()
+			b, cancelB := mk()
+			if a == nil || b == nil {
+				return
+			}
+			defer func() {
+				cancelA()
+				cancelB()
+				sched.Settle()
+			}()
+			sched.Settle()
+			if atRelist {
+				if !isClosed(a.Ready()) || !isClosed(b.Ready()) {
+					problems = append(problems, "not ready after the first lists")
+					return
+				}
+				release = srv.HoldLists()
+				srv.Set(2, 1, labSets[2], 1)
+				time.Sleep(3500 * time.Millisecond) // both are relisting now, held by the server
+				sched.Settle()
+			}
+			lists, _ := srv.Calls()
+			open := 0
+			for _, l := range lists {
+				if l.End.IsZero() {
+					open++
+				}
+			}
+			if open == 0 {
+				// (a client that answers overlapping calls with one request has one)
+				problems = append(problems, "harness: no List call in flight at the moment of the close")
+				release()
+				return
+			}
+			if byCancel {
+				cancelA()
+			} else {
+				a.Close()
+			}
+			sched.Settle()
+			release()
+			sched.Settle()
+			time.Sleep(100 * time.Millisecond)
+			sched.Settle()
+			if !isClosed(a.Done()) {
+				problems = append(problems, "the closed controller is not done")
+			}
+			if isClosed(b.Done()) {
+				problems = append(problems, fmt.Sprintf("closing one controller stopped another controller on the same client (Error() = %v)", b.Error()))
+				return
+			}
+			if !isClosed(b.Ready()) {
+				problems = append(problems, "the other controller on the same client is not ready after its list returned")
+				return
+			}
+			if got, _ := cacheIDs(b.Cache()); !sameInts(got, objIDs(srv.Objects())) {
+				problems = append(problems, fmt.Sprintf("the other controller holds %v, the server %v", got, objIDs(srv.Objects())))
+			}
+			// and it goes on relisting
+			before, _ := srv.Calls()
+			time.Sleep(7 * time.Second)
+			sched.Settle()
+			after, _ := srv.Calls()
+			if len(after)-len(before) < 2 {
+				problems = append(problems, fmt.Sprintf("the other controller listed %d times in the 7 s that followed (period 3 s)", len(after)-len(before)))
+			}
+		})
+		c.Rep.Evaluations++
+		replay := map[string]interface{}{"scenario": what}
+		if dl != "" {
+			replay["deadlock"] = dl
+			c.Violation("", "hang (bubble deadlock): "+what, replay)
+		}
+		for _, p := range problems {
+			c.Violation("", p+" ["+what+"]", replay)
+		}
+		c.DistinctCase(fmt.Sprint("shared-client", variant))
+	}
 }
